@@ -133,8 +133,13 @@ def gen_cases(seed, n):
     cases = []
 
     def case(txns, views=None, tpl=0, cur='${amount}', sources=None):
+        # object sharing as tally's parsers produce it: every transaction's tag list is its match_info['tags'] list;
+        # 'shared': equal-tag transactions of a merchant share one match_info; 'none': hand-built stats (no match_info)
+        alias = ('per-txn', 'shared', 'per-txn', 'none')[len(cases) % 4]
+        if alias == 'none':
+            txns = [dict(t, mi=False) for t in txns]
         return {'txns': txns, 'views': views, 'tpl': (None if tpl is None else TEMPLATES[tpl]), 'tpl_id': tpl,
-                'currency': cur, 'sources': sources if sources is not None else ['Amex']}
+                'currency': cur, 'sources': sources if sources is not None else ['Amex'], 'alias': alias}
 
     def T(m, d, a, tags=(), c='Food', s='Grocery', date='2025-01-05', **kw):
         t = {'m': m, 'd': d, 'a': a, 'tags': list(tags), 'c': c, 's': s, 'date': date, 'src': 'Amex', 'extra': None, 'raw': None,
@@ -200,6 +205,13 @@ def gen_cases(seed, n):
                        T('Broker', 'in', 6400, tags=['Investment', 'Transfer'], c='Money', s='Moves'),
                        T('Bank', 'pay', -64000, tags=['transfer', 'income'], c='Money', s='Moves'),
                        T('Bank', 'x', 1280, tags=['investment', 'income', 'transfer'], c='Money', s='Other'), T('Grocer', 'g', 1632)]))
+    # list aliasing between parser and report: first transaction untagged, a later one tagged (and the reverse as control)
+    for tg in (['income'], ['transfer'], ['investment'], ['recurring']):
+        for al in ('per-txn', 'shared'):
+            cases.append(dict(case([T('Acme', 'ACME STORE', 3200, c='Shopping', s='Supplies'), T('Acme', 'ACME PAYROLL', -64000, tags=tg, c='Shopping', s='Supplies')],
+                                   views=VIEWSETS[2]), alias=al))
+            cases.append(dict(case([T('Acme', 'ACME PAYROLL', -64000, tags=tg, c='Shopping', s='Supplies'), T('Acme', 'ACME STORE', 3200, c='Shopping', s='Supplies'),
+                                    T('Acme', 'ACME STORE 2', 1600, tags=['x'], c='Shopping', s='Supplies')]), alias=al))
     # refunds netted inside a merchant, transfer-tagged net outflow next to real refunds
     cases.append(case([T('Outfitter', 'buy', 1280), T('Outfitter', 'return', -3200), T('Airline', 'refund', -6400, c='Travel', s='Air'),
                        T('Grocer', 'g', 5120)]))
